@@ -177,6 +177,53 @@ def _restart(record, root):
 
 
 # ----------------------------------------------------------------------------------------------
+# layer 2b: a reused driver object starts its second run from the converged density again
+
+
+def _reuse(record, root):
+    failures, stats = [], {"probes": {"reuse_cases": 1}, "max": {}}
+    k = record["k"]
+    cfg = {
+        "engine": record["engine"],
+        "driver": "stub",
+        "batch": record["batch"],
+        "steps": 2 * (k + 1) + 3,
+        "dt": 0.4,
+        "temp": 300.0,
+        "seed": record["seed"],
+        "k": k,
+        "stub": {"pot": "morse", "gamma": 0.5},
+        "out": {"molid": [0], "print": 0, "ckpt": 0, "xyz": 0, "h5": {"data": 1, "coordinates": 1, "velocities": 0, "forces": 0}},
+        "reuse_P": True,
+        "remove_com": None,
+    }
+    if record["engine"] == "ksa":
+        cfg["max_rank"] = 2
+    if record["engine"] == "xl_damp":
+        cfg["damp"] = 20.0
+    opts = {"io_seam": False}
+    ref, run = os.path.join(root, "ref"), os.path.join(root, "run")
+    os.makedirs(ref)
+    os.makedirs(run)
+    r0 = mdsim.run_incarnation(cfg, ref, 0, None, "fresh", opts)
+    if r0["status"] != 0:
+        raise core.HarnessError(f"reference XL run failed: {r0.get('exc')}")
+    pre = mdsim.same_shape_batch(cfg["batch"], core.rng_for("c09reuse", record["seed"]))
+    c2 = dict(cfg, pre_run={"batch": pre, "steps": record["pre_steps"]})
+    r1 = mdsim.run_incarnation(c2, run, 0, None, "fresh", opts)
+    if r1["status"] != 0:
+        failures.append(core.fail("reused-driver-fails", f"engine={record['engine']} k={k}: a second run() on a driver object that ran {pre} for {record['pre_steps']} steps before raised {(r1.get('exc') or {}).get('type')}: {((r1.get('exc') or {}).get('msg') or '')[:200]}"))
+        return core.Result.make(record, failures, stats, sig=None, nontrivial=False)
+    A, _ = mdsim.dump_files(ref, cfg)
+    B, _ = mdsim.dump_files(run, cfg)
+    bad = mdsim.compare(A, B)
+    if bad:
+        failures.append(core.fail("reused-driver-changes-run", f"engine={record['engine']} k={k}: the run on a driver object used before (for {pre}, {record['pre_steps']} steps) differs from the run on a new driver: the auxiliary density / history of the earlier run leaked: {bad[:2]}"))
+    sig = ["reuse", record["engine"], k, record["pre_steps"] % (k + 1)]
+    return core.Result.make(record, failures, stats, sig=sig, nontrivial=True, sample={"case": record, "pre_batch": pre}, digest_=mdsim.files_digest(B))
+
+
+# ----------------------------------------------------------------------------------------------
 # layer 3: consistency with SCF at P = D (real SEQM)
 
 
@@ -305,7 +352,7 @@ def _scaling(record, root):
 def execute(record):
     root = core.make_scratch(f"c09-{record.get('i', 0)}-{core.digest(record)}")
     try:
-        return {"recurrence": _recurrence, "restart": _restart, "consistency": _consistency, "scaling": _scaling}[record["layer"]](record, root)
+        return {"recurrence": _recurrence, "restart": _restart, "reuse": _reuse, "consistency": _consistency, "scaling": _scaling}[record["layer"]](record, root)
     finally:
         shutil.rmtree(root, ignore_errors=True)
 
@@ -340,6 +387,10 @@ class C09(core.Check):
                     rec = {"i": i, "layer": "restart", "engine": eng, "k": k, "phase": phase, "crash": rng.choice(["soft", "hard"]), "seed": rng.randrange(1 << 20)}
                     recs.append(rec)
                     i += 1
+        for eng in ("xl", "ksa", "xl_damp"):
+            for k in range(3, 10):
+                recs.append({"i": i, "layer": "reuse", "engine": eng, "k": k, "batch": rng.choice([["h2o"], ["h2o", "h2"], ["nh3"]]), "pre_steps": rng.randint(1, 2 * k + 3), "seed": rng.randrange(1 << 20)})
+                i += 1
         ncons = 40 if tier == "quick" else 400
         for _ in range(ncons):
             rank = rng.choice([0, 0, 1, 2, 3, 4])
@@ -383,7 +434,7 @@ class C09(core.Check):
         rec_cases = {json.dumps(r["sig"][1:4]) for r in results if r["sig"] and r["sig"][0] == "recurrence"}
         rs_cases = {json.dumps(r["sig"][1:4]) for r in results if r["sig"] and r["sig"][0] == "restart"}
         samples = []
-        for layer in ("recurrence", "restart", "consistency", "scaling"):
+        for layer in ("recurrence", "restart", "reuse", "consistency", "scaling"):
             samples += [r["sample"] for r in results if r.get("sample") and r["record"]["layer"] == layer][:1]
         return {
             "evaluations": len(results),
